@@ -32,6 +32,9 @@ func runC12(p *eng.Prog, r *eng.Report, tier string) {
 	})
 	c.r.Floor("C12.3", "narrowing conversions of parsed numbers in the stream packages", nTr, 2)
 	c12Send(c)
+	// a stream error sent in place of a header is what the negotiation returns:
+	// the stream-level filter (C08.2) returns it as the error in every mode
+	c08ReaderAs(c, "C12.2")
 	c12Expect(c)
 	c12FromStart(c)
 	c12Restart(c)
